@@ -137,6 +137,13 @@ D = {
  "C18g": ("the prompt reads through a persistent BufReader", "a prompt answered before an INT 21h read (piped stdin): the service sees end of input"),
  "C19g": ("undefined labels sorted by position only (same idea as C19e)", "two undefined labels from one macro use"),
  "C20g": ("the driver keeps one BufReader for prompt commands", "stepping / breakpoint prompts before console input on piped stdin"),
+ "C11h": ("OFFSET in a byte position refused from 255 on (`>=` instead of `>`)", "data label at exactly offset 255 used through OFFSET where a byte constant is expected"),
+ "C13h": ("macro placeholder respelled `#i` (same idea as C11e)", "macro with 11 or more parameters using the 11th or a later one"),
+ "C15h": ("`Int 3 at line` takes the line from get_newline_before", "one-line source without any newline that executes `int 3` (panic)"),
+ "C16h": ("`error!(end,start,..)` in the hex byte-constant range diagnostic", "byte position, hexadecimal constant >= 0x100: the diagnostic names the column of the END of the literal"),
+ "C17h": ("`print mem a : n` breaks rows on the absolute address", "start address not a multiple of 16 and a range crossing a 16-byte boundary: rows are not 16 bytes long"),
+ "C18h": ("INT 21h/0Ah strips all trailing whitespace of the line", "input line ending in blanks / tabs (shorter than the capacity)"),
+ "C20h": ("prompt `print mem a : n` accepts a+n == 2^20 (same change as C17g)", "`print mem 1048575 : 1` typed while stepping: panic"),
 }
 rows = []
 for d in sorted(glob.glob(os.path.join(ROOT, "seeded", "*"))):
